@@ -111,6 +111,7 @@ class Ctx:
         s.allow_go = o.get("allow_go", False)
         s.progress_every = int(os.environ.get("PROGRESS", "20000"))
         s.fresh_feas = o.get('fresh_feas', True)
+        s.concrete_clock = o.get('concrete_clock', False)
         # branch feasibility is decided WITHOUT the injectivity axioms of ideal hashes (an over-approximation:
         # at worst an infeasible path is explored; every VC and cover is decided with the axioms)
         s.feas_axioms = o.get('feas_axioms', False)
